@@ -13,5 +13,5 @@ BreakT(j) == Tick /\ sup[j] /\ Fail(j)          \* the server ends the stream
 ConnFailT(j) == Tick /\ ~sup[j] /\ Fail(j)     \* the stream cannot be created
 UpdateT(j, m) == Tick /\ Update(j, m)
 Next == \/ \E n \in Names : WatchT(n) \/ UnwatchT(n)
-        \/ \E j \in S : StreamUpT(j) \/ BreakT(j) \/ ConnFailT(j) \/ \E m \in [Names -> {"v", "absent"}] : UpdateT(j, m)
+        \/ \E j \in S : StreamUpT(j) \/ BreakT(j) \/ ConnFailT(j) \/ \E m \in [Names -> {"v", "bad", "absent"}] : UpdateT(j, m)
 ====
